@@ -11,6 +11,15 @@ pub open spec fn last_closed_last<T: Types>(closed: Map<ChunkId, ClosedChunk<T>>
     (closed.dom().is_empty() ==> v is None) && (forall|k: ChunkId| is_max_key(closed, k) ==> v == closed[k].state.last)
 }
 
+/// event: the worker thread has stored `v` into the shared done counter, i.e. it has finished every request with seq <= v
+/// (the store sites are in FlushWorker::run_inner, unit U7; that the counter is monotone and FIFO-ordered is the ASSUMED meaning)
+pub uninterp spec fn ev_worker_done(v: u64) -> bool;
+/// `self.done_seq.load(Ordering::Relaxed)` (rule E21)
+#[verifier::external_body]
+pub fn done_seq_load(d: &DoneSeq) -> (v: u64) ensures ev_worker_done(v) { unimplemented!() }
+/// what wait_worker_idle establishes: the worker was observed to have finished request `upto`
+pub open spec fn worker_idle_observed(upto: u64) -> bool { exists|v: u64| #[trigger] ev_worker_done(v) && v >= upto }
+
 /// magnitudes assumed small (DESIGN 8.6): 2^62
 pub open spec fn small(n: int) -> bool { n < 0x4000_0000_0000_0000 }
 
